@@ -155,7 +155,20 @@ def step_coq(prop_file, timeout=900):
             v = os.path.join(COQ, f)
             if os.path.exists(vo) and os.path.getmtime(vo) >= os.path.getmtime(v) and not failed_at.startswith(f):
                 discharged += 1
-    return {"ok": ok and not forbidden and not axioms, "compiled": ok, "obligations": len(stmts),
+    chk_out = ""
+    if ok and os.environ.get("FV_TIER") == "thorough":
+        # independent re-check of the compiled cone, with the axioms it relies on
+        mod = "FP." + prop_file[:-2].replace("/", ".")
+        rc3, out3, err3, _ = sh(["coqchk", "-silent", "-o", "-Q", ".", "FP", mod], cwd=COQ, timeout=3000)
+        chk_out = (out3 + err3).decode("utf8", "replace")[-1500:]
+        if rc3 != 0:
+            ok = False
+            make_out += "\ncoqchk failed:\n" + chk_out
+        elif "Axioms: <none>" not in chk_out and "* Axioms:" in chk_out:
+            ax = chk_out.split("* Axioms:")[1].split("*")[0].strip()
+            if ax and ax != "<none>":
+                axioms.append("coqchk: " + ax)
+    return {"ok": ok and not forbidden and not axioms, "compiled": ok, "obligations": len(stmts), "coqchk": chk_out,
             "discharged": discharged, "cone": cone, "failed_at": failed_at,
             "make_tail": make_out[-3000:] if not ok else "", "assumptions": assumptions.strip(),
             "axioms": axioms, "forbidden": forbidden, "wall_s": time.time() - t0,
@@ -356,6 +369,8 @@ def write_replay(pid, obj):
     while os.path.exists(os.path.join(d, "%s-%d.json" % (pid, n))):
         n += 1
     path = os.path.join(d, "%s-%d.json" % (pid, n))
+    obj.setdefault("seed", int(os.environ.get("VERIF_SEED", "1")))
+    obj.setdefault("tier", os.environ.get("FV_TIER", "quick"))
     with open(path, "w") as f:
         json.dump(obj, f, indent=1)
     return path
@@ -416,6 +431,8 @@ def finish(chk, trusted_base, level_text=None, partial_theorems=None):
     cov["trusted_base"] = trusted_base
     cov["assumptions_printed"] = pr.get("assumptions", "")
     cov["proof_cone"] = pr.get("cone", [])
+    if pr.get("coqchk"):
+        cov["coqchk"] = pr["coqchk"]
     cov["rule"] = cov.get("rule", "")
     cov["model_vs_impl_disagreements"] = len(chk.disagreements)
     cov["impl_vs_spec_violations"] = len(chk.spec_violations)
